@@ -73,7 +73,13 @@ func (c16) Generate(seed uint64, tier string, index int) any {
 	}
 	for i := 0; i < n; i++ {
 		var sz int64
-		switch g.R.Intn(4) {
+		switch g.R.Intn(5) {
+		case 4:
+			// shorter than, equal to or just above one block
+			sz = []int64{1, 2, 100, 511, 512, 699, 700, 701, 1399, 1400, 1401}[g.R.Intn(11)]
+			if g.R.Bool() {
+				sz = 1 + g.R.Int63n(2100)
+			}
 		case 0:
 			sz = 2000 + g.R.Int63n(60000)
 		case 1:
